@@ -347,6 +347,22 @@ def define_checks(ctx, rng, do_model=False):
             reqs.append({'op': 'define', 'rows': srows,
                          'defn': [[''.join('1' if b else '0' for b in x), o, bool(v)] for ((x, o), v) in defn.items()]})
             expect.append({'ok': [''.join('1' if v else '0' for v in r) for r in got1]})
+        if not do_model:
+            # the completed functions answer point queries too, with the input given as a list or as a tuple
+            bad = None
+            try:
+                for f, nm in ((tm.define(dict(defn)), 'TruthTableModel'), (pm.define(dict(defn)), 'PyFunctionModel')):
+                    for i, x in enumerate(xs):
+                        for arg in (list(x), tuple(x)):
+                            if list(f.evaluate(arg)) != [want[o][i] for o in range(m)] or f.evaluate_at(arg, 0) != want[0][i]:
+                                bad = f'{nm}.define(...).evaluate({arg!r}) = {f.evaluate(arg)!r}'
+            except Exception as e:  # noqa: BLE001
+                bad = f'a point query on the completed function raised {err_name(e)}'
+            if bad:
+                ctx.violation('define.point_query', bad, input={'n': n, 'rows': srows})
+                continue
+        if do_model:
+            pass
         elif got1 != want or got2 != want:
             key = 'define.overwrites_defined' if over and all(
                 got1[o][i] == want[o][i] for o in range(m) for i in range(N) if rows[o][i] == DontCare) else 'define.wrong'
